@@ -12,7 +12,8 @@ fn judge_message(m: &RefMsg, loc: &mut Local) {
     let bytes = encode(m).0;
     let len = bytes.len();
     // boundary-family messages are ~64 KiB: all cuts of the first and last 600 bytes and every 97th in between
-    let dense = len <= 4096;
+    // the magic-prefix family (21 KiB messages) is cut at every position as well
+    let dense = len <= 4096 || (bytes.len() > 20 && (bytes[..3] == *b"DLS" || (with_storage && bytes[16..19] == *b"DLS")));
     loc.state(mix(fnv64(&bytes), with_storage as u64), true);
     loc.traces += 1;
     let details = |cut: usize| json!({"message_hex": hex_short(&bytes), "cut": cut, "len": len, "with_storage_header": with_storage});
